@@ -134,8 +134,8 @@ def main():
                     'applied to a scratch copy of /repo\'s package; every '
                     'property\'s quick check run with `--repo <scratch>`). '
                     'Seeds `Cxx-sN` are round 1 (the checks were '
-                    'strengthened with these in view), `Cxx-r2-N` are the '
-                    'held-out round 2.\n\n| seed | target | verdict | '
+                    'strengthened with these in view), `Cxx-r2-N` / `Cxx-r3-N` '
+                    'are the held-out rounds 2 and 3.\n\n| seed | target | verdict | '
                     'reported by (rule instances) |\n|---|---|---|---|\n')
             for sid, target, verdict, hits in summary:
                 cell = []
@@ -147,7 +147,8 @@ def main():
                 f.write('| {} | {} | {} | {} |\n'.format(
                     sid, target, verdict, '; '.join(cell)))
             for tag, name in (('-s', 'round 1'), ('-r2-', 'round 2 '
-                                                  '(held out)')):
+                                                  '(held out)'),
+                              ('-r3-', 'round 3 (held out)')):
                 part = [s_ for s_ in summary if tag in s_[0]]
                 f.write('\n{}: {} seeds, {} reported by their target '
                         'property, {} only by another property, {} missed, '
@@ -158,6 +159,13 @@ def main():
                                 if s_[2] == 'other-property'),
                             sum(1 for s_ in part if s_[2] == 'MISSED'),
                             sum(1 for s_ in part if s_[2] == 'STALE-PATCH')))
+    if every and not explicit:
+        exp = {}
+        for sid, target, verdict, hits in summary:
+            exp[sid] = sorted(p_ for p_, lines in hits if '(' not in p_)
+        with open(os.path.join(SEEDED, 'EXPECTED.json'), 'w') as f:
+            json.dump(exp, f, indent=0, sort_keys=True)
+            f.write('\n')
     n = len(summary)
     print('\n{} seeds, {} detected by their target property, {} only by '
           'another property, {} missed, {} stale'.format(
